@@ -52,7 +52,23 @@ def canon_exc(e: BaseException) -> str:
 # ------------------------------------------------------------------ Coq term printers
 def zc(n) -> str:
     n = int(n)
+    if n.bit_length() > 12000:
+        # beyond Python's int-to-decimal-string limit (4300 digits): a hexadecimal literal, which Coq reads as well
+        return "(-0x%x)" % -n if n < 0 else "0x%x" % n
     return "(%d)" % n if n < 0 else "%d" % n
+
+
+def json_safe(obj):
+    """ints too long for Python to print in decimal become hexadecimal strings (json.dump would raise on them)"""
+    if isinstance(obj, bool):
+        return obj
+    if isinstance(obj, int):
+        return obj if obj.bit_length() <= 12000 else ("-0x%x" % -obj if obj < 0 else "0x%x" % obj)
+    if isinstance(obj, dict):
+        return {k: json_safe(v) for k, v in obj.items()}
+    if isinstance(obj, (list, tuple)):
+        return [json_safe(v) for v in obj]
+    return obj
 
 
 def natc(n) -> str:
@@ -351,7 +367,7 @@ def write_json(path, obj):
     os.makedirs(os.path.dirname(path), exist_ok=True)
     tmp = path + ".tmp%d" % os.getpid()
     with open(tmp, "w") as f:
-        json.dump(obj, f, indent=1, sort_keys=True, default=str)
+        json.dump(json_safe(obj), f, indent=1, sort_keys=True, default=str)
     os.replace(tmp, path)
 
 
@@ -512,7 +528,7 @@ def run_check(mod, tier, seed, replay=None):
             what["coq_case"] = terms[i]
             what["coq_says"] = coq_show(mod, terms[i], corr_model_ok)
             what["disagreeing_cases"] = len(model_bad)
-        h = hashlib.sha1(json.dumps(what, sort_keys=True, default=str).encode()).hexdigest()[:10]
+        h = hashlib.sha1(json.dumps(json_safe(what), sort_keys=True, default=str).encode()).hexdigest()[:10]
         path = os.path.join(rdir, "%s-%s.json" % (prop, h))
         write_json(path, what)
         print("VIOLATION property=%s replay=%s no-failing-input-found" % (prop, path))
@@ -527,7 +543,7 @@ def run_check(mod, tier, seed, replay=None):
             what["first_disagreeing_case"] = pairs[i][0]
             what["impl_result"] = pairs[i][1]
             what["coq_says"] = coq_show(mod, terms[i], corr_model_ok)
-        h = hashlib.sha1(json.dumps(what, sort_keys=True, default=str).encode()).hexdigest()[:10]
+        h = hashlib.sha1(json.dumps(json_safe(what), sort_keys=True, default=str).encode()).hexdigest()[:10]
         path = os.path.join(rdir, "%s-%s.json" % (prop, h))
         write_json(path, what)
         print("VIOLATION property=%s replay=%s no-failing-input-found" % (prop, path))
@@ -539,8 +555,8 @@ def run_check(mod, tier, seed, replay=None):
         impl_herr = [(c, r) for c, r in herr if os.path.join(REPO, "src") in r.get("tb", "")
                      or re.search(r'File "[^"]*/(copyreg|pickle|copy)\.py"', r.get("tb", ""))]
         if impl_herr and not replay:
-            c, r = min(impl_herr, key=lambda cr: len(json.dumps(cr[0], default=str)))
-            h = hashlib.sha1(json.dumps(c, sort_keys=True, default=str).encode()).hexdigest()[:10]
+            c, r = min(impl_herr, key=lambda cr: len(json.dumps(json_safe(cr[0]), default=str)))
+            h = hashlib.sha1(json.dumps(json_safe(c), sort_keys=True, default=str).encode()).hexdigest()[:10]
             path = os.path.join(rdir, "%s-%s.json" % (prop, h))
             write_json(path, {"property": prop, "kind": "failing-input", "case": c,
                               "impl_result": {"unexpected_exception": r["harness_error"], "traceback": r.get("tb", "")},
@@ -555,8 +571,8 @@ def run_check(mod, tier, seed, replay=None):
 
     if replay:
         for (c, r), term in zip(pairs, terms):
-            print("case: %s" % json.dumps(c, default=str)[:1500])
-            print("impl: %s" % json.dumps(r, default=str)[:1500])
+            print("case: %s" % json.dumps(json_safe(c), default=str)[:1500])
+            print("impl: %s" % json.dumps(json_safe(r), default=str)[:1500])
             print("coq : %s" % coq_show(mod, term, corr_model_ok)[:1500])
         print("replay: %d case(s), %d violate the spec" % (len(pairs), len(spec_bad)))
         return 1 if spec_bad else 0
